@@ -121,6 +121,7 @@ class ProjGen:
         toks = [T("package")] + dotted(pkg) + [T(";")]
         # candidate import targets: project items, near-misses, unknowns, built-ins
         cands = [p + [n] for (p, n, _) in items]
+        cands += [p + [n.lower()] for (p, n, _) in items[:2]] + [[x.upper() if i == 0 else x for i, x in enumerate(p)] + [n] for (p, n, _) in items[:1]]
         cands += [["zz", "Unk"], ["pkg", "Nope"], ["android", "os", "IBinder"], ["android", "os", "ParcelFileDescriptor"],
                   ["android", "os", "ParcelableHolder"]]
         imports = []
